@@ -98,6 +98,35 @@ func reader(kind string, enc []byte) (io.Reader, func() int) {
 
 var readerKinds = []string{"whole", "onebyte", "half", "dataerr"}
 
+// Receiver histories. Every decoder of the property is run on a FRESH receiver and on USED receivers
+// that already hold other material of a smaller, an equal and a larger size than the object being
+// decoded (all four in every case, for every object type that has a size). After decoding, the
+// receiver must equal the source field by field, lengths included: nothing of the previous content
+// may survive.
+var relations = []string{"fresh", "smaller", "equal", "larger"}
+
+// relSize draws the size of a used receiver in the given relation to n (the size being decoded):
+// smaller in [lo, n-1] (boundary-heavy), larger in [n+1, n+extra]. When no smaller size exists the
+// relation degrades to "equal" (the returned label says what was built).
+func relSize(t *rapid.T, rel string, n, lo, extra int, label string) (int, string) {
+	switch rel {
+	case "smaller":
+		if n-1 < lo {
+			return n, "equal"
+		}
+		switch rapid.IntRange(0, 2).Draw(t, label+"_smcls") {
+		case 0:
+			return lo, rel
+		case 1:
+			return n - 1, rel
+		}
+		return rapid.IntRange(lo, n-1).Draw(t, label+"_sm"), rel
+	case "larger":
+		return n + rapid.IntRange(1, extra).Draw(t, label+"_lg"), rel
+	}
+	return n, "equal"
+}
+
 // encode runs a writer and checks the returned count against the bytes produced and the expected size.
 func encode(t fataler, what string, f func(io.Writer) (int64, error), want int) []byte {
 	var buf bytes.Buffer
@@ -173,6 +202,27 @@ func propSerialSRS(t *rapid.T, c *cx) {
 	nat := s.S.Native()
 	pkN, vkN := s.S.PkPtr(), s.S.VkPtr()
 
+	// used receivers hold (a prefix of) another SRS, built for another trapdoor
+	const extra = 5
+	tau2 := c.F.Add(s.Tau, bi(1))
+	if tau2.Sign() == 0 {
+		tau2 = bi(2)
+	}
+	other, err := c.k.NewSRS(uint64(size+extra), tau2)
+	if err != nil {
+		t.Fatalf("%s: NewSRS(%d,%s): %v", c.name, size+extra, hx(tau2), err)
+	}
+	recv := func(rel string, n int, label string) (inst.KSRS, string) {
+		if rel == "fresh" {
+			return c.k.EmptySRS(), rel
+		}
+		m, got := relSize(t, rel, n, 0, extra, label)
+		return other.CloneN(m), got
+	}
+	permSRS := rapid.Permutation(relations).Draw(t, "recvSRS")
+	permPk := rapid.Permutation(relations).Draw(t, "recvPk")
+	k := 0
+
 	type form struct {
 		name   string
 		write  func(obj interface{}) func(io.Writer) (int64, error)
@@ -192,30 +242,38 @@ func propSerialSRS(t *rapid.T, c *cx) {
 		}
 		for _, rd := range []string{"ReadFrom", "UnsafeReadFrom"} {
 			what := "SRS." + f.name + "→" + rd
-			r := c.k.EmptySRS()
+			r, rel := recv(permSRS[k], size, fmt.Sprintf("rs%d", k))
 			if rd == "ReadFrom" {
 				decode(t, c.name+": "+what, rk, r.Native().(readerFrom).ReadFrom, srsEnc)
 			} else {
 				decode(t, c.name+": "+what, rk, r.Native().(unsafeReaderFrom).UnsafeReadFrom, srsEnc)
 			}
-			c.sameSRS(t, what, s.S, r, size)
+			c.sameSRS(t, what+" (receiver "+rel+")", s.S, r, size)
 			if re := encode(t, c.name+": re-encoding after "+what, f.write(r.Native()), -1); !bytes.Equal(re, srsEnc) {
-				t.Fatalf("%s: %s: re-encoding the restored SRS gives different bytes", c.name, what)
+				t.Fatalf("%s: %s (receiver %s): re-encoding the restored SRS gives different bytes", c.name, what, rel)
 			}
 			c.sameBehaviour(t, what, s, r, p, pt)
-			rep.Case(test, key+" "+what, true, "serial:"+what, "reader:"+rk, scls, sizeClass(size))
+			rep.Case(test, key+" "+what+" recv="+rel, true, "serial:"+what, "reader:"+rk, scls, sizeClass(size), "recv:SRS:"+rel)
 
 			// proving key and verifying key separately, assembled into one SRS
 			what = "Pk/Vk." + f.name + "→" + rd
-			r2 := c.k.EmptySRS()
+			r2, rel2 := recv(permPk[k], size, fmt.Sprintf("rp%d", k))
+			k++
+			vkRecv := "used"
+			if rel2 == "fresh" {
+				vkRecv = "fresh"
+			}
 			if rd == "ReadFrom" {
 				decode(t, c.name+": ProvingKey."+f.name+"→"+rd, rk, r2.PkPtr().(readerFrom).ReadFrom, pkEnc)
 			} else {
 				decode(t, c.name+": ProvingKey."+f.name+"→"+rd, rk, r2.PkPtr().(unsafeReaderFrom).UnsafeReadFrom, pkEnc)
 			}
 			decode(t, c.name+": VerifyingKey."+f.name+"→ReadFrom", rk, r2.VkPtr().(readerFrom).ReadFrom, vkEnc)
-			c.sameSRS(t, what, s.S, r2, size)
-			rep.Case(test, key+" "+what, true, "serial:"+what, "reader:"+rk, scls, sizeClass(size))
+			c.sameSRS(t, what+" (receiver "+rel2+")", s.S, r2, size)
+			if re := encode(t, c.name+": re-encoding after "+what, f.write(r2.Native()), -1); !bytes.Equal(re, srsEnc) {
+				t.Fatalf("%s: %s (receiver %s): re-encoding the restored keys gives different bytes", c.name, what, rel2)
+			}
+			rep.Case(test, key+" "+what+" recv="+rel2, true, "serial:"+what, "reader:"+rk, scls, sizeClass(size), "recv:ProvingKey:"+rel2, "recv:VerifyingKey:"+vkRecv)
 		}
 	}
 
@@ -246,34 +304,39 @@ func propSerialSRS(t *rapid.T, c *cx) {
 	if want := z.vkU + 16 + written*z.g1u; buf.Len() != want {
 		t.Fatalf("%s: WriteDump(%v) wrote %d bytes, the documented layout has %d", c.name, wopt, buf.Len(), want)
 	}
-	r := c.k.EmptySRS()
-	rr, left := reader(rk, buf.Bytes())
-	if err := r.Native().(dumper).ReadDump(rr, ropt...); err != nil {
-		t.Fatalf("%s: ReadDump(%v) of WriteDump(%v) (%s reader): %v", c.name, ropt, wopt, rk, err)
-	}
-	if rk == "whole" && left() != len(sentinel) {
-		t.Fatalf("%s: ReadDump(%v) of WriteDump(%v) left %d bytes unread / over-read (want %d)", c.name, ropt, wopt, left(), len(sentinel))
-	}
-	what := fmt.Sprintf("WriteDump(%v)→ReadDump(%v)", wopt, ropt)
-	c.sameSRS(t, what, s.S, r, kept)
-	if len(p) <= kept {
-		c.sameBehaviour(t, what, s, r, p, pt)
-	} else {
-		c.sameBehaviour(t, what, s, r, p[:kept], pt)
-	}
-	// a dump of the restored SRS equals the dump of the original limited to the same number of points
-	var b1, b2 bytes.Buffer
-	if err := r.Native().(dumper).WriteDump(&b1); err != nil {
-		t.Fatalf("%s: WriteDump of the restored SRS: %v", c.name, err)
-	}
+	var b2 bytes.Buffer
 	if err := dm.WriteDump(&b2, kept); err != nil {
 		t.Fatalf("%s: WriteDump(%d): %v", c.name, kept, err)
 	}
-	if !bytes.Equal(b1.Bytes(), b2.Bytes()) {
-		t.Fatalf("%s: %s: dump of the restored SRS differs from the dump of the original limited to %d points", c.name, what, kept)
+	what := fmt.Sprintf("WriteDump(%v)→ReadDump(%v)", wopt, ropt)
+	for i, want := range relations {
+		r, rel := recv(want, kept, fmt.Sprintf("rd%d", i))
+		rr, left := reader(rk, buf.Bytes())
+		if err := r.Native().(dumper).ReadDump(rr, ropt...); err != nil {
+			t.Fatalf("%s: ReadDump(%v) of WriteDump(%v) (%s reader, receiver %s): %v", c.name, ropt, wopt, rk, rel, err)
+		}
+		if rk == "whole" && left() != len(sentinel) {
+			t.Fatalf("%s: ReadDump(%v) of WriteDump(%v) left %d bytes unread / over-read (want %d)", c.name, ropt, wopt, left(), len(sentinel))
+		}
+		c.sameSRS(t, what+" (receiver "+rel+")", s.S, r, kept)
+		// a dump of the restored SRS equals the dump of the original limited to the same number of points
+		var b1 bytes.Buffer
+		if err := r.Native().(dumper).WriteDump(&b1); err != nil {
+			t.Fatalf("%s: WriteDump of the restored SRS: %v", c.name, err)
+		}
+		if !bytes.Equal(b1.Bytes(), b2.Bytes()) {
+			t.Fatalf("%s: %s (receiver %s): dump of the restored SRS differs from the dump of the original limited to %d points", c.name, what, rel, kept)
+		}
+		if i == len(relations)-1 {
+			if len(p) <= kept {
+				c.sameBehaviour(t, what, s, r, p, pt)
+			} else {
+				c.sameBehaviour(t, what, s, r, p[:kept], pt)
+			}
+		}
+		rep.Case(test, key+" "+what+" recv="+rel, true, "serial:dump", "reader:"+rk, scls, sizeClass(size),
+			fmt.Sprintf("dump:limit_w=%v", wmax >= 0), fmt.Sprintf("dump:limit_r=%v", rmax >= 0), "recv:SRS.dump:"+rel)
 	}
-	rep.Case(test, key+" "+what, true, "serial:dump", "reader:"+rk, scls, sizeClass(size),
-		fmt.Sprintf("dump:limit_w=%v", wmax >= 0), fmt.Sprintf("dump:limit_r=%v", rmax >= 0))
 }
 
 func TestC11_SerialSRS(t *testing.T) {
@@ -294,17 +357,23 @@ func propSerialProofs(t *rapid.T, c *cx) {
 	h := c.open(t, s, p, pt, false)
 	nat := c.k.ProofNative(h.Pr)
 	enc := encode(t, c.name+": OpeningProof.WriteTo", nat.(writerTo).WriteTo, z.g1c+z.fr)
-	back := c.k.ProofNative(inst.KProof{H: c.k.G1Base(bi(12345)), V: bi(777)}) // dirty receiver
-	decode(t, c.name+": OpeningProof.ReadFrom", rk, back.(readerFrom).ReadFrom, enc)
-	got := c.k.ProofFromNative(back)
-	if !c.k.PtEqual(got.H, h.Pr.H) || got.V.Cmp(h.Pr.V) != 0 {
-		t.Fatalf("%s: OpeningProof round trip changed the proof", c.name)
-	}
-	if re := encode(t, c.name+": OpeningProof re-encoding", back.(writerTo).WriteTo, -1); !bytes.Equal(re, enc) {
-		t.Fatalf("%s: OpeningProof re-encoding differs", c.name)
-	}
-	if err := c.k.Verify(s.S, h.C.P, got, pt); err != nil {
-		t.Fatalf("%s: restored OpeningProof rejected: %v", c.name, err)
+	for _, rel := range []string{"fresh", "used"} {
+		back := c.k.ProofNative(inst.KProof{H: c.k.G1Inf(), V: bi(0)})
+		if rel == "used" { // the receiver holds another proof (fixed-size object: no size relation)
+			back = c.k.ProofNative(inst.KProof{H: c.k.G1Base(bi(12345)), V: bi(777)})
+		}
+		decode(t, c.name+": OpeningProof.ReadFrom", rk, back.(readerFrom).ReadFrom, enc)
+		got := c.k.ProofFromNative(back)
+		if !c.k.PtEqual(got.H, h.Pr.H) || got.V.Cmp(h.Pr.V) != 0 {
+			t.Fatalf("%s: OpeningProof round trip (%s receiver) changed the proof", c.name, rel)
+		}
+		if re := encode(t, c.name+": OpeningProof re-encoding", back.(writerTo).WriteTo, -1); !bytes.Equal(re, enc) {
+			t.Fatalf("%s: OpeningProof re-encoding differs (%s receiver)", c.name, rel)
+		}
+		if err := c.k.Verify(s.S, h.C.P, got, pt); err != nil {
+			t.Fatalf("%s: restored OpeningProof rejected: %v", c.name, err)
+		}
+		cls = append(cls, "recv:OpeningProof:"+rel)
 	}
 	if c.k.PtIsInf(h.Pr.H) {
 		cls = append(cls, "H=infinity")
@@ -316,23 +385,36 @@ func propSerialProofs(t *rapid.T, c *cx) {
 	hb := c.batchOpen(t, s, ps, bz, nil, false, "sha256")
 	bnat := c.k.BatchProofNative(hb.Bp)
 	benc := encode(t, c.name+": BatchOpeningProof.WriteTo", bnat.(writerTo).WriteTo, z.g1c+4+len(ps)*z.fr)
-	// receiver with a slice of another length
-	bback := c.k.BatchProofNative(inst.KBatchProof{H: c.k.G1Base(bi(5)), Vs: []*big.Int{bi(1), bi(2), bi(3)}})
-	decode(t, c.name+": BatchOpeningProof.ReadFrom", rk, bback.(readerFrom).ReadFrom, benc)
-	bgot := c.k.BatchProofFromNative(bback)
-	if !c.k.PtEqual(bgot.H, hb.Bp.H) || len(bgot.Vs) != len(hb.Vs) {
-		t.Fatalf("%s: BatchOpeningProof round trip changed H or the number of values", c.name)
-	}
-	for i := range bgot.Vs {
-		if bgot.Vs[i].Cmp(hb.Vs[i]) != 0 {
-			t.Fatalf("%s: BatchOpeningProof round trip changed value %d", c.name, i)
+	// receivers: fresh, and used ones holding fewer / as many / more claimed values
+	for i, want := range relations {
+		rel := want
+		bback := c.k.BatchProofNative(inst.KBatchProof{H: c.k.G1Inf()})
+		if want != "fresh" {
+			var m int
+			m, rel = relSize(t, want, len(ps), 0, 4, fmt.Sprintf("rb%d", i))
+			stale := make([]*big.Int, m)
+			for j := range stale {
+				stale[j] = bi(int64(0xbad00 + j))
+			}
+			bback = c.k.BatchProofNative(inst.KBatchProof{H: c.k.G1Base(bi(5)), Vs: stale})
 		}
-	}
-	if re := encode(t, c.name+": BatchOpeningProof re-encoding", bback.(writerTo).WriteTo, -1); !bytes.Equal(re, benc) {
-		t.Fatalf("%s: BatchOpeningProof re-encoding differs", c.name)
-	}
-	if err := c.k.BatchVerifySinglePoint(s.S, hb.digests(), bgot, bz, sha256.New()); err != nil {
-		t.Fatalf("%s: restored BatchOpeningProof rejected: %v", c.name, err)
+		decode(t, c.name+": BatchOpeningProof.ReadFrom", rk, bback.(readerFrom).ReadFrom, benc)
+		bgot := c.k.BatchProofFromNative(bback)
+		if !c.k.PtEqual(bgot.H, hb.Bp.H) || len(bgot.Vs) != len(hb.Vs) {
+			t.Fatalf("%s: BatchOpeningProof round trip (receiver %s) changed H or the number of values (%d, want %d)", c.name, rel, len(bgot.Vs), len(hb.Vs))
+		}
+		for i := range bgot.Vs {
+			if bgot.Vs[i].Cmp(hb.Vs[i]) != 0 {
+				t.Fatalf("%s: BatchOpeningProof round trip (receiver %s) changed value %d", c.name, rel, i)
+			}
+		}
+		if re := encode(t, c.name+": BatchOpeningProof re-encoding", bback.(writerTo).WriteTo, -1); !bytes.Equal(re, benc) {
+			t.Fatalf("%s: BatchOpeningProof re-encoding differs (receiver %s)", c.name, rel)
+		}
+		if err := c.k.BatchVerifySinglePoint(s.S, hb.digests(), bgot, bz, sha256.New()); err != nil {
+			t.Fatalf("%s: restored BatchOpeningProof rejected: %v", c.name, err)
+		}
+		bcls = append(bcls, "recv:BatchOpeningProof:"+rel)
 	}
 	rep.Case(test, fmt.Sprintf("%s batchproof tau=%s ps=%s z=%s reader=%s", c.name, hx(s.Tau), polysKey(ps), hx(bz), rk), true,
 		dedup(append(bcls, "serial:BatchOpeningProof", "reader:"+rk, scls))...)
@@ -362,33 +444,85 @@ func propMpc(t *rapid.T, c *cx) {
 	cur := c.k.InitializeSetup(n)
 	prev := c.k.InitializeSetup(n)
 	want := z.g1c + z.g2c + 8 + (n-1)*z.g1c + z.g2c + 32
+	// usedSetup: a setup of another ceremony with m powers that has contributed and (half of the time)
+	// has itself been read from its transcript, as a receiver that walks through a list of transcripts is
+	usedSetup := func(m int, label string) inst.KMpc {
+		o := c.k.InitializeSetup(m)
+		o.Contribute()
+		if rapid.Bool().Draw(t, label+"_read") {
+			var b bytes.Buffer
+			if _, err := o.WriteTo(&b); err != nil {
+				t.Fatalf("%s: MpcSetup.WriteTo: %v", c.name, err)
+			}
+			o2 := c.k.EmptySetup()
+			if _, err := o2.ReadFrom(&b); err != nil {
+				t.Fatalf("%s: MpcSetup.ReadFrom: %v", c.name, err)
+			}
+			return o2
+		}
+		return o
+	}
 	var last inst.KMpc
+	var lastRecv []inst.KMpc
+	var lastRel []string
+	var old inst.KMpc // the receiver carried two rounds ago: a used object holding an older transcript of this ceremony
 	for r := 0; r < rounds; r++ {
 		cur.Contribute()
 		enc := encode(t, fmt.Sprintf("%s: MpcSetup.WriteTo (N=%d, round %d)", c.name, n, r), cur.WriteTo, want)
-		back := c.k.EmptySetup()
-		decode(t, c.name+": MpcSetup.ReadFrom", rk, back.ReadFrom, enc)
-		if re := encode(t, c.name+": MpcSetup re-encoding", back.WriteTo, want); !bytes.Equal(re, enc) {
-			t.Fatalf("%s: MpcSetup re-encoding differs from the transcript it was read from", c.name)
+		carry := rapid.IntRange(0, len(relations)-1).Draw(t, "carry")
+		lastRecv, lastRel = nil, nil
+		for i, wantRel := range relations {
+			rel := wantRel
+			back := c.k.EmptySetup()
+			if wantRel != "fresh" {
+				var m int
+				m, rel = relSize(t, wantRel, n, 2, 5, fmt.Sprintf("rm%d_%d", r, i))
+				if rel == "equal" && old != nil {
+					back, old = old, nil
+				} else {
+					back = usedSetup(m, fmt.Sprintf("um%d_%d", r, i))
+				}
+			}
+			decode(t, fmt.Sprintf("%s: MpcSetup.ReadFrom (N=%d, receiver %s)", c.name, n, rel), rk, back.ReadFrom, enc)
+			if re := encode(t, fmt.Sprintf("%s: MpcSetup re-encoding (N=%d, receiver %s)", c.name, n, rel), back.WriteTo, want); !bytes.Equal(re, enc) {
+				t.Fatalf("%s: MpcSetup re-encoding differs from the transcript it was read from (N=%d, receiver %s)", c.name, n, rel)
+			}
+			lastRecv, lastRel = append(lastRecv, back), append(lastRel, rel)
+			rep.Case(test, fmt.Sprintf("%s mpc n=%d round=%d reader=%s recv=%s", c.name, n, r, rk, rel), true, "serial:MpcSetup", "reader:"+rk, fmt.Sprintf("mpc:n=%d", n), "recv:MpcSetup:"+rel)
 		}
+		back := lastRecv[carry]
 		if err := prev.Verify(back); err != nil {
-			t.Fatalf("%s: restored honest contribution %d does not verify against its predecessor: %v", c.name, r, err)
+			t.Fatalf("%s: restored honest contribution %d (receiver %s) does not verify against its predecessor: %v", c.name, r, lastRel[carry], err)
 		}
-		prev, last = back, back
-		rep.Case(test, fmt.Sprintf("%s mpc n=%d round=%d reader=%s", c.name, n, r, rk), true, "serial:MpcSetup", "reader:"+rk, fmt.Sprintf("mpc:n=%d", n))
+		old, prev, last = prev, back, back
+		if r == 0 {
+			old = nil // round 0's predecessor is the initial setup, not a read transcript
+		}
 	}
-	// behaviour: Seal is a deterministic function of the transcript and the beacon
+	// behaviour: Seal is a deterministic function of the transcript and the beacon, whatever the receiver held before
 	a := cur.Seal(beacon)
-	b := last.Seal(beacon)
-	for i := 0; i < n; i++ {
-		if !c.k.PtEqual(a.G1(i), b.G1(i)) {
-			t.Fatalf("%s: Seal of the restored transcript: Pk.G1[%d] differs from Seal of the original", c.name, i)
-		}
+	if a.Size() != n {
+		t.Fatalf("%s: Seal of a ceremony of %d powers has %d G1 points", c.name, n, a.Size())
 	}
-	if !bytes.Equal(a.VkMem(), b.VkMem()) {
-		g1 := c.k.PtEqual(a.VkG1(), b.VkG1())
-		t.Fatalf("%s: Seal of the restored transcript gives a different verifying key than Seal of the original (Vk.G1 equal: %v, restored Vk.G1 is infinity: %v)",
-			c.name, g1, c.k.PtIsInf(b.VkG1()))
+	var b inst.KSRS
+	for i, rc := range lastRecv {
+		sb := rc.Seal(beacon)
+		if sb.Size() != n {
+			t.Fatalf("%s: Seal of the restored transcript (receiver %s) has %d G1 points, want %d", c.name, lastRel[i], sb.Size(), n)
+		}
+		for j := 0; j < n; j++ {
+			if !c.k.PtEqual(a.G1(j), sb.G1(j)) {
+				t.Fatalf("%s: Seal of the restored transcript (receiver %s): Pk.G1[%d] differs from Seal of the original", c.name, lastRel[i], j)
+			}
+		}
+		if !bytes.Equal(a.VkMem(), sb.VkMem()) {
+			g1 := c.k.PtEqual(a.VkG1(), sb.VkG1())
+			t.Fatalf("%s: Seal of the restored transcript (receiver %s) gives a different verifying key than Seal of the original (Vk.G1 equal: %v, restored Vk.G1 is infinity: %v)",
+				c.name, lastRel[i], g1, c.k.PtIsInf(sb.VkG1()))
+		}
+		if rc == last {
+			b = sb
+		}
 	}
 	if !b.LinesConsistent() {
 		t.Fatalf("%s: sealed SRS: Vk.Lines are not the precomputed lines of Vk.G2", c.name)
